@@ -6,7 +6,7 @@ package platform
 
 // Helpers that parse version strings are abstracted as uninterpreted functions of their
 // arguments (assumed contracts; the facts used about them are the axioms below, which are
-// bounded-checked against the real functions by /verif/replay_drivers/platform_test.go).
+// bounded-checked against the real functions by /verif/bounded/platform_axioms_test.go, thorough tier).
 //@ ufun $vv(string) int
 //@ ufun $semcmp(string, string) int
 //@ ufun $osver(string) string
